@@ -5,9 +5,18 @@ Require Import Base.Py Base.ZList Model.Splice Model.Fam_mp4.
 Open Scope Z_scope.
 
 (* ------------------------------------------------------------------ slices *)
+Lemma rd_is_slice f p n : 0 <= p -> 0 <= n -> mp4_rd f p n = zslice p (p + n) f.
+Proof.
+  intros Hp Hn. unfold mp4_rd, zslice. destruct (zlen f <=? p) eqn:E.
+  - rewrite zdrop_all by lia. bset (p + n - p) n. unfold ztake. destruct (Z.to_nat n); reflexivity.
+  - bset (p + Z.min n (zlen f - p) - p) (Z.min n (zlen f - p)). bset (p + n - p) n.
+    destruct (Z.le_gt_cases n (zlen f - p)); [f_equal; lia|].
+    rewrite !ztake_all; [reflexivity| |]; rewrite zlen_zdrop by lia; lia.
+Qed.
+
 Lemma zlen_rd f p n : 0 <= p -> 0 <= n -> zlen (mp4_rd f p n) = Z.max 0 (Z.min n (zlen f - p)).
 Proof.
-  intros. unfold mp4_rd, zslice. bset (p + n - p) n.
+  intros. rewrite rd_is_slice by lia. unfold zslice. bset (p + n - p) n.
   rewrite zlen_ztake by lia. rewrite zlen_zdrop by lia. lia.
 Qed.
 Lemma zlen_rd_in f p n : 0 <= p -> 0 <= n -> p + n <= zlen f -> zlen (mp4_rd f p n) = n.
@@ -17,7 +26,7 @@ Proof. intros Hp Hn H. rewrite zlen_rd in H by lia. lia. Qed.
 
 Lemma znth_rd f p n i : 0 <= p -> 0 <= i < n -> znth i (mp4_rd f p n) = znth (p + i) f.
 Proof.
-  intros. unfold mp4_rd, zslice. bset (p + n - p) n.
+  intros. rewrite rd_is_slice by lia. unfold zslice. bset (p + n - p) n.
   rewrite znth_ztake by lia. apply znth_zdrop; lia.
 Qed.
 
@@ -39,20 +48,20 @@ Qed.
 Lemma rd_sub f p n a m : 0 <= p -> 0 <= a -> 0 <= m -> a + m <= n ->
   mp4_rd (mp4_rd f p n) a m = mp4_rd f (p + a) m.
 Proof.
-  intros. unfold mp4_rd, zslice. bset (p + n - p) n. bset (a + m - a) m. bset (p + a + m - (p + a)) m.
+  intros. rewrite !rd_is_slice by lia. unfold zslice. bset (p + n - p) n. bset (a + m - a) m. bset (p + a + m - (p + a)) m.
   unfold ztake, zdrop. rewrite skipn_firstn_comm. rewrite firstn_firstn.
   rewrite skipn_skipn'. f_equal; [lia|]. f_equal. lia.
 Qed.
 Lemma ztake_rd f p n m : 0 <= p -> 0 <= m <= n -> ztake m (mp4_rd f p n) = mp4_rd f p m.
 Proof.
-  intros. unfold mp4_rd, zslice. bset (p + n - p) n. bset (p + m - p) m.
+  intros. rewrite !rd_is_slice by lia. unfold zslice. bset (p + n - p) n. bset (p + m - p) m.
   rewrite ztake_ztake. f_equal. lia.
 Qed.
 Lemma zdrop_rd f p n m : 0 <= p -> 0 <= m <= n -> zdrop m (mp4_rd f p n) = mp4_rd f (p + m) (n - m).
 Proof.
   intros. replace (zdrop m (mp4_rd f p n)) with (mp4_rd (mp4_rd f p n) m (n - m)).
   - apply rd_sub; lia.
-  - unfold mp4_rd at 1. unfold zslice. bset (m + (n - m) - m) (n - m).
+  - rewrite (rd_is_slice (mp4_rd f p n)) by lia. unfold zslice. bset (m + (n - m) - m) (n - m).
     apply ztake_all. rewrite zlen_zdrop by lia. rewrite zlen_rd by lia. lia.
 Qed.
 Lemma rd_app_split f p n m : 0 <= p -> 0 <= n -> 0 <= m -> mp4_rd f p (n + m) = mp4_rd f p n ++ mp4_rd f (p + n) m.
@@ -61,7 +70,7 @@ Proof.
   rewrite ztake_rd by lia. rewrite zdrop_rd by lia. f_equal. f_equal. lia.
 Qed.
 Lemma rd_whole f : mp4_rd f 0 (zlen f) = f.
-Proof. unfold mp4_rd, zslice. rewrite zdrop_0. apply ztake_all. lia. Qed.
+Proof. pose proof (zlen_nonneg f). rewrite rd_is_slice by lia. unfold zslice. rewrite zdrop_0. apply ztake_all. lia. Qed.
 
 (* ------------------------------------------------------------------ patch *)
 Lemma zlen_patch g p bs : 0 <= p -> p + zlen bs <= zlen g -> zlen (patch g p bs) = zlen g.
